@@ -204,6 +204,41 @@ fn vio(r: &mut Report, what: String, a: &MMappings, b: &MMappings, got: &str) {
 	r.violation(what.clone(), format!("property C09 (Mappings::merge)\nwhat: {what}\n--- A (namespaces s, a)\n{}--- B (namespaces s, b)\n{}--- implementation answered\n{got}\n--- Gallina\nA := {}\nB := {}\n", dump(a), dump(b), g_mappings(a), g_mappings(b)));
 }
 
+// ---------- compact Gallina: every distinct string of a case is let-bound once ----------
+// (A, B and the result share almost all of their strings; Coq spends its time elaborating
+// the literals, not evaluating the model)
+#[derive(Default)]
+struct Intern { tbl: Vec<S>, idx: HashMap<S, usize> }
+impl Intern {
+	fn s(&mut self, s: &S) -> String {
+		if let Some(i) = self.idx.get(s) { return format!("s{i}"); }
+		let i = self.tbl.len(); self.tbl.push(s.clone()); self.idx.insert(s.clone(), i);
+		format!("s{i}")
+	}
+	fn names(&mut self, n: &NamesRow) -> String { let v: Vec<String> = n.iter().map(|o| gopt(o.as_ref().map(|s| self.s(s)))).collect(); glist(v) }
+	fn doc(&mut self, d: &Option<S>) -> String { gopt(d.as_ref().map(|s| self.s(s))) }
+	fn mappings(&mut self, m: &MMappings) -> String {
+		let mut cs = vec![];
+		for c in &m.classes {
+			let fs: Vec<String> = c.fields.iter().map(|f| format!("(mkField {} {} {})", self.s(&f.desc), self.names(&f.names), self.doc(&f.doc))).collect();
+			let mut ms = vec![];
+			for me in &c.methods {
+				let ps: Vec<String> = me.params.iter().map(|p| format!("(mkParam {} {} {})", p.index, self.names(&p.names), self.doc(&p.doc))).collect();
+				ms.push(format!("(mkMeth {} {} {} {})", self.s(&me.desc), self.names(&me.names), self.doc(&me.doc), glist(ps)));
+			}
+			cs.push(format!("(mkClass {} {} {} {})", self.names(&c.names), self.doc(&c.doc), glist(fs), glist(ms)));
+		}
+		let ns: Vec<String> = m.ns.iter().map(|s| self.s(s)).collect();
+		format!("(mkMappings {} {} {})", glist(ns), self.doc(&m.doc), glist(cs))
+	}
+}
+fn g_case(a: &MMappings, b: &MMappings, got: &Option<MMappings>) -> String {
+	let mut i = Intern::default();
+	let body = format!("CMerge {} {} {}", i.mappings(a), i.mappings(b), gres(got.as_ref().map(|m| i.mappings(m))));
+	let lets: String = i.tbl.iter().enumerate().map(|(k, s)| format!("let s{k} : str := {} in ", gstr(s))).collect();
+	format!("({lets}{body})")
+}
+
 // ---------- generators ----------
 const CLS2: [&str; 8] = ["net/minecraft/Foo", "Bar", "a/b/C", "Foo$Inner", "X", "Ü", "pkg/Thing", "Q$1"];
 const MEM2: [&str; 8] = ["getValue", "name", "count", "run", "x", "field_1", "method_2", "π"];
@@ -424,7 +459,7 @@ fn through(r: &mut Report, stream: &str, a: &MMappings, b: &MMappings) {
 		}
 	}
 	if let Ok(g) = &got {
-		r.case(stream, format!("CMerge {} {} {}", g_mappings(a), g_mappings(b), gres(g.as_ref().map(g_mappings))));
+		r.case(stream, g_case(a, b, g));
 	}
 }
 
@@ -445,7 +480,7 @@ pub fn run(ctx: &Ctx) -> anyhow::Result<Report> {
 		} else { r.notes.push("fixture files not readable".into()); }
 	}
 
-	let n = if ctx.thorough { 12000 } else { 2400 };
+	let n = if ctx.thorough { 10000 } else { 1600 };
 	for i in 0..n {
 		let mut cfg = GenCfg::new(2);
 		match i % 7 { 0 => { cfg.max_classes = 2; cfg.max_members = 2; } 1 => { cfg.max_classes = 4; cfg.max_members = 5; cfg.max_params = 5; } 2 => { cfg.docs = false; } _ => {} }
